@@ -50,7 +50,7 @@ def realise(case):
     base = rng.integers(0, 64, size=(1, A + 1, 3)) / 64
     vib = rng.integers(-4, 5, size=(T, A + 1, 3)) / 256
     coords = base + vib
-    traj = gem.make_traj(coords, lat, ['Li'] * A + ['O'], time_step=2e-15, metadata={'temperature': 500.0})
+    traj = gem.make_traj(coords, lat, ['Li'] * A + ['O'], time_step=case.get('time_step', 2e-15), metadata={'temperature': case.get('temperature', 500.0)})
     diff = traj.filter('Li')
     sites = gem.make_sites(case.get('site_cell', lat), case['sites'], labels=case['labels'])
     events = _calculate_transition_events(atom_sites=s, atom_inner_sites=i)
